@@ -74,6 +74,7 @@ func (c06) Gen(r *sim.Rand, c *sim.Case, tier string) {
 		c.Cfg["foreign"] = 1
 	} else {
 		g := world.NewGen(r.Fork())
+		g.Extra = true
 		g.Alpha = []int{0, 1, 4}
 		g.Fam = 0
 		for f := 1; f < world.FAll; f <<= 1 {
